@@ -39,7 +39,7 @@ type config struct {
 	Second string `json:"second_quota,omitempty"`
 	// IDs: how the transaction ids read - the proxy takes them from the client's x-lunar-req-id header when there is
 	// one, so they are free text: "" = t<n>; "nested" = pairs of ids of which one is the other plus "::retry" (the
-	// separator the concurrency quota uses inside its set members); "free" = spaces, colons, non-ASCII
+	// separator the concurrency quota uses inside its set members); "free" = spaces, colons, non-ASCII; "colon" = t<n>: (a trailing colon)
 	IDs string `json:"id_style,omitempty"`
 	// LogLevel: the gateway's log level (LOG_LEVEL), output discarded; "" / "off" = logging disabled
 	LogLevel string `json:"log_level,omitempty"`
@@ -48,7 +48,28 @@ type config struct {
 // idStyle is the id style of the case that is running (set where the case starts, like the clock)
 var idStyle string
 
+// idAlias: transactions that carry the id of an earlier, ended transaction (set while a case runs)
+var idAlias = map[int]int{}
+
+// idHolder: the latest transaction that carries the id of transaction id
+func idHolder(id int) int {
+	root := id
+	if a, ok := idAlias[id]; ok {
+		root = a
+	}
+	h := root
+	for k, a := range idAlias {
+		if a == root && k > h {
+			h = k
+		}
+	}
+	return h
+}
+
 func txName(id int) string {
+	if a, ok := idAlias[id]; ok {
+		id = a
+	}
 	switch idStyle {
 	case "nested":
 		if id%2 == 0 { // the longer id belongs to the earlier transaction of a pair
@@ -57,6 +78,8 @@ func txName(id int) string {
 		return fmt.Sprintf("order-%d", id/2)
 	case "free":
 		return fmt.Sprintf("req %d: \u00e9::\u2603", id)
+	case "colon": // ends in one colon: next to the separator that follows it in a set member it makes a run of three
+		return fmt.Sprintf("t%d:", id)
 	}
 	return fmt.Sprintf("t%d", id)
 }
@@ -230,6 +253,9 @@ type step struct {
 	Txn int           `json:"txn,omitempty"`
 	D   time.Duration `json:"d,omitempty"`
 	N   int           `json:"n,omitempty"`
+	// Again (req): the id of transaction Again comes again (x-lunar-req-id is client text; retried calls re-send
+	// it) - if that transaction has surely ended (answered, failed, or expired and collected); else an id of its own
+	Again int `json:"id_of_ended_transaction,omitempty"`
 }
 
 type hist struct {
@@ -252,7 +278,7 @@ func genConfig() *rapid.Generator[config] {
 		}
 		c.Second = rapid.SampledFrom([]string{"", "", "after", "before", "conc-after", "conc-before"}).Draw(t, "second")
 		c.Cluster = rapid.SampledFrom([]string{"none", "none", "gw-7f3a", "", ""}).Draw(t, "cluster")
-		c.IDs = rapid.SampledFrom([]string{"", "", "", "nested", "nested", "free"}).Draw(t, "ids")
+		c.IDs = rapid.SampledFrom([]string{"", "", "", "nested", "nested", "free", "colon"}).Draw(t, "ids")
 		c.LogLevel = loglevel.Gen().Draw(t, "log level")
 		return c
 	})
@@ -284,12 +310,30 @@ func genSteps(c config) *rapid.Generator[[]step] {
 				}
 				continue
 			}
+			if c.IDs != "" && op == 2 && rapid.IntRange(0, 2).Draw(t, "id-again") == 0 {
+				// a transaction that is never answered expires and is collected; the quota is filled; then its id
+				// comes again
+				a := next
+				out = append(out, step{Op: "req", Txn: a}, step{Op: "adv", D: exp + gc + 10*time.Millisecond}, step{Op: "adv", D: gc})
+				next++
+				for i := int64(0); i < c.Max && i < 6; i++ {
+					out = append(out, step{Op: "req", Txn: next})
+					next++
+				}
+				out = append(out, step{Op: "req", Txn: next, Again: a})
+				next++
+				continue
+			}
 			switch op {
 			case 12:
 				// the gateway's metrics collection reads the quota gauges
 				out = append(out, step{Op: "metrics"})
 			case 0, 1, 2, 3:
-				out = append(out, step{Op: "req", Txn: next})
+				st := step{Op: "req", Txn: next}
+				if next > 1 && rapid.IntRange(0, 4).Draw(t, "again") == 0 {
+					st.Again = rapid.IntRange(1, next-1).Draw(t, "again-of")
+				}
+				out = append(out, st)
 				next++
 			case 4:
 				out = append(out, step{Op: "early", Txn: next})
@@ -463,8 +507,8 @@ func runHistoryAtLevel(h hist) (nontrivial bool, classes map[string]int, err err
 	engine.SetClock(clk)
 	engine.SetCluster(h.Config.Cluster)
 	defer engine.SetCluster("none")
-	idStyle = h.Config.IDs
-	defer func() { idStyle = "" }()
+	idStyle, idAlias = h.Config.IDs, map[int]int{}
+	defer func() { idStyle, idAlias = "", map[int]int{} }()
 	metrics := engine.NewMetrics()
 	defer metrics.Close()
 	dir, e := engine.NewDir(scratch)
@@ -564,8 +608,25 @@ func runHistoryAtLevel(h hist) (nontrivial bool, classes map[string]int, err err
 		return nil
 	}
 
-	doRequest := func(si, id int, early bool) error {
+	doRequest := func(si, id int, early bool, again int) error {
 		now := clk.Now()
+		if holder := idHolder(again); again > 0 && again != id && admitted[holder] {
+			// the id is free again only if the transaction that carries it now has ended
+			gone := true
+			for _, q := range m.chain {
+				if _, ok := q.slots[holder]; ok {
+					gone = false
+				}
+			}
+			if gone {
+				root := again
+				if a, ok := idAlias[root]; ok {
+					root = a
+				}
+				idAlias[id] = root
+				classes["request with the id of an ended transaction"]++
+			}
+		}
 		mayAdmit, mayRefuse := m.acceptable(now)
 		res := engine.RunRequest(s, txn(id, early, now))
 		if res.Err != nil {
@@ -614,6 +675,10 @@ func runHistoryAtLevel(h hist) (nontrivial bool, classes map[string]int, err err
 	}
 
 	for si, st := range h.Steps {
+		if st.Op == "resp" || st.Op == "err" {
+			// an id that came again belongs to the transaction that carries it now
+			st.Txn = idHolder(st.Txn)
+		}
 		switch st.Op {
 		case "metrics":
 			classes["metrics-read"]++
@@ -621,11 +686,11 @@ func runHistoryAtLevel(h hist) (nontrivial bool, classes map[string]int, err err
 				return false, classes, infraErr{"metrics collection failed: " + e.Error()}
 			}
 		case "req":
-			if e := doRequest(si, st.Txn, false); e != nil {
+			if e := doRequest(si, st.Txn, false, st.Again); e != nil {
 				return false, classes, e
 			}
 		case "early":
-			if e := doRequest(si, st.Txn, true); e != nil {
+			if e := doRequest(si, st.Txn, true, 0); e != nil {
 				return false, classes, e
 			}
 		case "resp":
